@@ -198,6 +198,10 @@ def main(tier):
            "C09 floor/ceil/round of a Float: the rounded value itself, as Integer when it fits (guard checked separately)")
     ob("I|trunc(", "fn", "trunc(", INT, None, ["(Ok (I (a)))"], "C09 trunc of an Integer")
     ob("F|trunc(", "fn", "trunc(", FLT, None, ["(Ok (N (call f64::trunc (a))))", "(if _ (Ok (I (cast f64 i64 (call f64::trunc (a))))) (Ok %s))" % NV("(call f64::trunc (a))")], "C09 trunc of a Float")
+    # premise: Number::from(f64) (the `N` wrapper above) preserves the numeric value  (C18)
+    from .c18 import from_f64_ok
+    okf, why, _ = from_f64_ok(F, m)
+    run.ob(okf, "number-from", "C09 premise: Number::from(f64) keeps the numeric value (Integer only for integral doubles in [-2^63, 2^63))", "eval_number::number::Number::from(f64)", why)
     # cast-guard rule over every arm
     ncast = 0
     for ctor, a in m.tb.eval_arms().items():
